@@ -1,6 +1,7 @@
 package main
 
 import (
+	"os"
 	"fmt"
 	"go/ast"
 	"go/constant"
@@ -202,6 +203,10 @@ func (e *SpecEnv) ident(id *ast.Ident) (SV, error) {
 	if e.fn == g.f {
 		if al, ok := e.lookupLocal(name); ok {
 			et := al.Type().Underlying().(*types.Pointer).Elem()
+			if e.inOld {
+				// a local variable has no value at entry: inside old() it would denote an unconstrained constant
+				return SV{}, fmt.Errorf("local variable %q inside old(): locals have no entry value (name the parameter-based term instead)", name)
+			}
 			a := g.resolveAddr(al, e.state())
 			return SV{g.w.loadAddr(a, e.state(), et), et}, nil
 		}
@@ -520,12 +525,35 @@ func (e *SpecEnv) selector(n *ast.SelectorExpr) (SV, error) {
 	for _, f := range w.typeFacts(cur, typ) {
 		w.assume(f)
 	}
+	// a slice read from a field is nil or has an allocated backing array (as loadAddr states for slices loaded directly)
+	if isSlice(typ) && os.Getenv("NO_SLICE_ALLOC") == "" {
+		if al, ok := e.state().heap["alloc"]; ok {
+			w.assume(fmt.Sprintf("(or (= (sbase %s) 0) (select %s (sbase %s)))", cur.S, al.S, cur.S))
+		}
+	}
 	return SV{cur, typ}, nil
 }
 
 func (e *SpecEnv) call(n *ast.CallExpr) (SV, error) {
 	g := e.g
 	w := g.w
+	// (*T)(x): the dynamic value of an interface (or another pointer) viewed as *T, T a named type of this package. It is
+	// only meaningful where the code itself asserts that type (x.(*T) panics otherwise); references are shared.
+	if pe, ok := n.Fun.(*ast.ParenExpr); ok && len(n.Args) == 1 {
+		if st, ok := pe.X.(*ast.StarExpr); ok {
+			if id, ok := st.X.(*ast.Ident); ok && e.fn.Pkg != nil {
+				if obj := e.fn.Pkg.Pkg.Scope().Lookup(id.Name); obj != nil {
+					if _, ok := obj.(*types.TypeName); ok {
+						v, err := e.eval(n.Args[0])
+						if err != nil {
+							return SV{}, err
+						}
+						return SV{v.T, types.NewPointer(obj.Type())}, nil
+					}
+				}
+			}
+		}
+	}
 	if id, ok := n.Fun.(*ast.Ident); ok {
 		switch id.Name {
 		case "old":
